@@ -120,7 +120,7 @@ def check(ctx, filt):
     ctx.ob('C01.overlong', 'USBTokenDetector.report-state.extra-byte' + tag, not bad, fsm.state_loc[R],
            'a fourth byte must abandon the token (lead to a state that cannot report before the next packet): %s' % sorted(map(str, o)))
     # (e)
-    want = {'self.interface.pid': pidreg, 'Cat(self.interface.address, self.interface.endpoint)': tok}
+    want = {'self.interface.pid': pidreg, 'self.interface.address': tok + '[0:7]', 'self.interface.endpoint': tok + '[7:11]'}
     for lhs, rhs in want.items():
         ds = [a for a in ir.assigns if a.lhs.canon() == lhs and not q.is_zero(a.rhs)]
         ok = len(ds) == 1 and ds[0].rhs.canon() == rhs and q.atoms(ds[0]) == at
